@@ -17,11 +17,14 @@
    "every step satisfies a pointwise (nth/length) specification" instead of an equation between two folds,
    because the model vector already IS a list (absV would be the identity and the equation a tautology);
    (2) norm_inf returns res (it indexes v[0]: Panic Index on the empty vector), so its laws carry `= Ok m`.
+     over IEEE binary64 (Flocq): dot_exact_float, sum_slice_exact_float -- on integer-valued data below 2^53 the float
+     instance returns exactly the integer value of the definition ("exact on exactly-representable data").
    Not proved (DESIGN section 10): every statement "up to rounding" over f64, Minkowski for general p,
    powspace / norm_p (libm pow) -- tied by tolerance and searched on every run. *)
-From Coq Require Import List Arith Reals Permutation Sorted QArith Qcanon.
+From Coq Require Import List Arith Reals Permutation Sorted QArith Qcanon ZArith.
 From OV Require Import Base.Panic Base.Arith Model.Complex Model.Vector Model.VecOps
-                       Proofs.Vector Proofs.VectorR Proofs.VectorQc Proofs.VectorCx Inst.QcInst.
+                       Proofs.Vector Proofs.VectorR Proofs.VectorQc Proofs.VectorCx Proofs.ParDotFloat Proofs.VectorFloat
+                       Inst.QcInst Inst.FloatInst.
 Import ListNotations.
 Local Open Scope nat_scope.
 
@@ -210,6 +213,36 @@ Example dot_bilinear_nonvacuous :
   RingLaws AQ /\ length [q 1 2; q 3 1] = length [q 2 1; q (-1) 3] /\ length [q 1 2; q 3 1] = length [q 4 1; q 6 1] /\
   dot (A := AQ) [q 1 2; q 3 1] [q 4 1; q 6 1] = Ok (q 20 1).
 Proof. split; [exact AQ_RingLaws15|]. repeat split. Qed.
+
+(* ---------------------------------------------------------------- exactly-representable f64 data (IEEE binary64, Flocq)
+   "match their definitions exactly on exactly-representable data": for integer-valued f64 vectors whose partial sums
+   stay below 2^53 in absolute value no operation of dot / sum_slice rounds -- the float instance of the model returns
+   exactly the integer value of the definition.  [ExactW x z]: x is finite and its real value is the integer z.
+   (The primitive-float modules are not imported here so that Print Assumptions shows qualified axiom names.) *)
+Theorem dot_exact_float : forall (v w : list AF) (zs ws : list Z),
+  Forall2 ExactW v zs -> Forall2 ExactW w ws -> length zs = length ws -> (zadot zs ws < 2 ^ 53)%Z ->
+  exists x, dot (A := AF) v w = Ok x /\ ExactW x (zdot zs ws).
+Proof. intros v w zs ws Hv Hw Hl Hb. exact (dot_exact_float_lemma v w zs ws Hv Hw Hl Hb). Qed.
+Check dot_exact_float : forall (v w : list AF) (zs ws : list Z),
+  Forall2 ExactW v zs -> Forall2 ExactW w ws -> length zs = length ws -> (zadot zs ws < 2 ^ 53)%Z ->
+  exists x, dot (A := AF) v w = Ok x /\ ExactW x (zdot zs ws).
+Print Assumptions dot_exact_float.
+Print Assumptions audit_separator.
+
+Theorem sum_slice_exact_float : forall (v : list AF) (zs : list Z) s e (x : AF),
+  Forall2 ExactW v zs -> (zasuml zs < 2 ^ 53)%Z -> sum_slice (A := AF) v s e = Ok x ->
+  ExactW x (zsuml (slice zs s e)).
+Proof. intros v zs s e x Hv Hb E. exact (sum_slice_exact_float_lemma v zs s e x Hv Hb E). Qed.
+Check sum_slice_exact_float : forall (v : list AF) (zs : list Z) s e (x : AF),
+  Forall2 ExactW v zs -> (zasuml zs < 2 ^ 53)%Z -> sum_slice (A := AF) v s e = Ok x ->
+  ExactW x (zsuml (slice zs s e)).
+Print Assumptions sum_slice_exact_float.
+Print Assumptions audit_separator.
+
+Example exact_float_nonvacuous :
+  Forall2 ExactW ex15_v ex15_z /\ length ex15_z = length ex15_z /\ (zadot ex15_z ex15_z < 2 ^ 53)%Z /\
+  (zasuml ex15_z < 2 ^ 53)%Z /\ is_ok (sum_slice (A := AF) ex15_v 1 3) = true /\ zsuml (slice ex15_z 1 3) = 3%Z.
+Proof. split; [exact ex15_exact|]. repeat split; vm_compute; reflexivity. Qed.
 
 (* ---------------------------------------------------------------- linspace *)
 Theorem linspace_ends : forall (F : SArith), FieldLaws F -> OfNatLaws F -> forall (a b : F) n, 2 <= n ->
